@@ -247,6 +247,59 @@ def attribute_family(rng, full):
     return progs
 
 
+NAME_POOL = [
+    # one-letter names
+    "a", "r", "g", "s", "e", "n", "f", "i", "c", "b", "m", "t", "u", "z",
+    # substrings / prefixes / suffixes of reserved attribute words
+    "ar", "rg", "gs", "arg", "rgs", "ex", "exp", "xpr", "pr", "nam", "ame", "na", "fil", "ile", "fi", "imp", "port", "ort",
+    "filt", "ter", "lter", "cach", "ched", "ca", "buff", "ered", "buf", "inh", "able", "herit", "mod", "ule", "du",
+    # the reserved words themselves, where a parameter may carry the name (`args` is the tag's own, `import` a keyword)
+    "expr", "name", "file", "filter", "cached", "buffered", "inheritable", "module", "args_", "argss", "xargs",
+    # names differing only in case
+    "A", "Arg", "ARGS", "Args", "R", "Name", "FILE", "Expr", "G", "S",
+]
+
+
+def names_family(rng):
+    """parameter / attribute NAMES: every name of the pool is a keyword parameter of a def that is called through
+    <%self:d>/<%local:d> tags, <%call expr>, and plain calls with 1, 2 and 4 keyword arguments in shuffled orders; each
+    value must reach the parameter of that name (defaults for the ones not passed), by Python's calling rules."""
+    import itertools
+    pool = list(NAME_POOL)
+    rng.shuffle(pool)
+    progs = []
+    n = iter(range(1, 100000))
+    for ci in range(0, len(pool), 4):
+        names = pool[ci:ci + 4]
+        if len(names) < 4:
+            names += pool[:4 - len(names)]
+        for required in (False, True):
+            ps = [dict(n=nm, kind="opt", dv="d" + nm) for nm in names]
+            if required:
+                ps[0] = dict(n=names[0], kind="pos", dv="-")
+            show = []
+            for q in ps:
+                show += [dict(k="lit", t="<" + q["n"]), dict(k="val", v=q["n"], vk="plain")]
+            d0 = dict(flags=set(), fm=0, dec=False, dm=0, blk=False, params=ps, bsig=[], nested=[], home=0,
+                      body=[dict(k="expr", parts=show + [dict(k="lit", t=">")]), dict(k="expr", parts=[dict(k="cbody", args=dict(pos=[], kw=[]))])])
+            subsets = [c for r_ in (1, 2, 4) for c in itertools.combinations(names, r_)]
+            if required:
+                subsets = [c for c in subsets if names[0] in c] + [c for c in subsets if names[0] not in c][:1]   # the last one: TypeError
+            body = []
+            for j, sub in enumerate(subsets):
+                kw = [dict(n=nm, nt=nm + ":", v="v%d" % next(n)) for nm in sorted(sub)]
+                call = dict(k="call", d="d0", via="name", args=dict(pos=[], kw=kw))
+                if j % 4 == 3:
+                    body.append(dict(k="expr", parts=[call]))
+                else:
+                    st = dict(k="callc", parts=[call], body=[dict(k="text", t="t%d" % next(n))], bparams=[], defs=[])
+                    if j % 4 != 2:
+                        st["ns"] = True          # <%self:d0 k="v" ...> / <%local:d0 ...>; otherwise either spelling
+                    body.append(st)
+            progs.append(dict(defs={"d0": d0}, incs=[], body=body, eh=False, fe=False, top=["d0"], el="on"))
+    return progs
+
+
 def buffered_block_family():
     """an anonymous / filtered <%block buffered="True">: its content belongs at the place of the block."""
     progs = []
@@ -278,6 +331,10 @@ def check(run):
     attrs = attribute_family(run.rng, thorough)
     rc.check_batch(run, attrs, 0, "attributes", coverage=True)
     run.extra["attribute_programs"] = len(attrs)
+    # ---- 1d. parameter / attribute names of calls with content
+    nm = names_family(run.rng)
+    rc.check_batch(run, nm, 0, "names", coverage=True)
+    run.extra["name_programs"] = len(nm)
     # ---- 2. seeded random programs; nesting to depth 4
     n_rand = 260 if not thorough else 3000
     prof = rc.profile(w=dict(expr=6, callc=5, block=2, **{"while": 1, "with": 1}), depth=3, p_calldefs=0.4, npy=(0, 2),
